@@ -7,11 +7,23 @@
      exec, blank_screen                                the reference terminal
      show o h w S                                      the screen a naive painter leaves for S on a blank terminal
      same_display a b                                  same cells (character, face), same placements, no error
+     display_upto E a b                                the same, but a may place the placements E besides b's
      spec_run                                          "after every Frame the screen displays show(drawn surface)"
+     resume_run                                        the same, suspended from the Frame of an overlapping surface to the
+                                                       next Clear / Renew / Resize
+     loop_model, loop_spec (Render/Loop.v)             the render loop of run_render with its output queue
      good_surface = in_domain /\ no_image_overlap      the domain of the property minus the known classes OverlapImages, OverlapWideImage
    Assumption on the oracle ([oracle_ok]): a space is one column wide, a blank in the default face is
    what an untouched terminal cell shows, and the faces the renderer erases with EraseChars
-   ([erasable]) are faces whose erased cells look like printed spaces. *)
+   ([erasable]) are faces whose erased cells look like printed spaces.
+
+   Counted theorems (15): C01_show_is_denotation, C01_show_no_orphan, C01_history (main),
+   C01_history_final, C01_history_resumes, C01_scratch, C01_forced, C01_clear_then_frame,
+   C01_idle_frame, C01_render_loop, C01_render_loop_exact; witnesses of the known classes:
+   C01_overlap_images_refuted, C01_overlap_wide_image_refuted, C01_overlap_wide_image_no_picture,
+   C01_dropped_image_erase_refuted.  Not counted: Lemmas den_not_orphan, ex_oracle_ok, ex_good and
+   nine [_nonvacuous] Examples (one per theorem with hypotheses).
+   Spec decision: clear(), a new renderer and a resize reset the surface being drawn. *)
 From Coq Require Import List NArith Bool Arith.
 From SNT Require Import Render.Cell Render.Screen Render.Frame Render.Domain Render.Spec
   Render.GridLemmas Render.ExecProofs Render.Den Render.ShowProofs Render.HistoryProofs Render.ResumeProofs Render.Loop Render.LoopProofs
